@@ -107,6 +107,15 @@ Definition hkey_linkable (e1 e2 : entry) : bool :=
   | _, _, _, _ => false
   end.
 
+(* all names of e's (dev, inode) agree on owner/mode/mtime (always so on a real filesystem) *)
+Definition same_devino (e1 e2 : entry) : bool :=
+  match dev e1, ino e1, dev e2, ino e2 with
+  | Some d1, Some i1, Some d2, Some i2 => N.eqb d1 d2 && N.eqb i1 i2
+  | _, _, _, _ => false
+  end.
+Definition consistent_inode (c : list entry) (e : entry) : bool :=
+  forallb (fun g => negb (is_reg g && same_devino g e) || hkey_linkable g e) c.
+
 Definition find_row (l : str) (rs : list row) : option row :=
   find (fun r => str_eqb (r_loc r) l) rs.
 
@@ -129,9 +138,26 @@ Definition spec_rt_ok (c : list entry) (res : val) : bool :=
           && forallb (fun e1 => forallb (fun e2 =>
                 negb (is_reg e1 && is_reg e2) || str_eqb (loc e1) (loc e2) ||
                 match find_row (loc e1) rs, find_row (loc e2) rs with
-                | Some r1, Some r2 => Bool.eqb (oN_eqb (r_ino r1) (r_ino r2)) (hkey_linkable e1 e2)
+                | Some r1, Some r2 =>
+                    let shared := oN_eqb (r_ino r1) (r_ino r2) in
+                    if hkey_linkable e1 e2 then shared || negb (consistent_inode c e1) else negb shared
                 | _, _ => false
                 end) c) c
       end
   | _ => false
   end.
+
+(* the known class "symdir-chain" (known_findings/C25.json): an entry lies beneath a symlink S1 whose
+   resolved target is, or lies beneath, another symlink S2 of the set *)
+Definition chain_classb (c : list entry) : bool :=
+  existsb (fun s1 =>
+    is_sym s1 && existsb (fun e => beneathb (loc s1) (loc e)) c
+    && existsb (fun s2 => is_sym s2 && negb (str_eqb (loc s1) (loc s2))
+                          && (str_eqb (resolved_target s1) (loc s2) || beneathb (loc s2) (resolved_target s1))) c) c.
+
+(* the same three conditions on a set of entries as read from ANY archive (archive_to_fsobj's output) *)
+Definition plain_locs (d : list entry) : Prop := forall e, In e d -> plain_loc (loc e).
+Definition flat_d (d : list entry) : Prop :=
+  forall s e, In s d -> In e d -> is_sym s = true -> ~ beneath (loc s) (loc e).
+Definition closed_d (d : list entry) : Prop :=
+  forall e, In e d -> dirname (loc e) = [SL] \/ In (dirname (loc e)) (map loc d).
